@@ -96,6 +96,9 @@ func (s *JavaRefactorListener) EnterClassOrInterfaceType(ctx *ClassOrInterfaceTy
 }
 
 func (s *JavaRefactorListener) EnterAnnotation(ctx *AnnotationContext) {
+	if ctx.QualifiedName() == nil {
+		return
+	}
 	annotation := ctx.QualifiedName().GetText()
 
 	startLine := ctx.GetStart().GetLine()
